@@ -106,7 +106,8 @@ def run(ctx):
     from paramiko.message import Message
     from paramiko import util
 
-    ctx.rule = ("typed field sequences (1-8 fields; integers at every sign/byte boundary up to 4096 bits) "
+    ctx.rule = ("typed field sequences (1-8 fields; integers at every sign/byte boundary up to 4096 bits; strings around "
+                "and beyond the 1 MiB padding limit of get_bytes) "
                 "encoded and decoded by the real Message and by the Lean model; plus arbitrary byte strings "
                 "decoded under arbitrary reader sequences. distinct = distinct (kinds, encoding) pairs; "
                 "non-trivial = the sequence contains a variable-length field (a/s/l/m)")
@@ -177,6 +178,31 @@ def run(ctx):
                     ctx.fail("inflate-deflate", {"z": v}, "inflate(deflate(z)) != z")
         dec_reqs.append("dec %s %s" % (kinds, hx(data + tail)))
         dec_cases.append((kinds, data + tail))
+
+    # ---- fields around and beyond the 1 MiB zero-padding limit of get_bytes (every size is a well-formed field)
+    M = 1 << 20
+    big_sizes = [M - 1, M, M + 1, M + 4096, 3 * M] if ctx.thorough else [M - 1, M, M + 1, 2 * M + 3]
+    for j, n in enumerate(big_sizes):
+        body = rng.randbytes(n)
+        fields = [("u", rng.randrange(1 << 32)), ("s", body), ("q", rng.randrange(1 << 64)),
+                  ("m", boundary_int(rng)), ("l", ["ab", "c-d"]), ("s", b"tail")]
+        kinds = "".join(k for k, _ in fields)
+        ctx.dist("big-field")
+        try:
+            data = real_encode(Message, fields)
+            got, so_far, rem = real_decode(Message, kinds, data + b"xy", [])
+        except Exception as e:
+            ctx.fail("roundtrip-raises:" + type(e).__name__, {"big_string_bytes": n}, repr(e))
+            continue
+        ctx.case((kinds, n, "big"), True)
+        if got != fields or rem != b"xy" or so_far != data:
+            bad = next((i for i, (g, w) in enumerate(zip(got, fields)) if g != w), None)
+            ctx.fail("roundtrip:big-field", {"big_string_bytes": n, "fields": "u s[%d] q m l s" % n},
+                     "field %s read back wrong (string came back as %d bytes); remainder %d bytes"
+                     % (bad, len(got[1][1]) if len(got) > 1 and isinstance(got[1][1], bytes) else -1, len(rem)))
+        if n == M + 1:  # one of them through the model as well (≈10 s per MiB under the interpreter)
+            dec_reqs.append("dec %s %s" % (kinds, hx(data + b"xy")))
+            dec_cases.append((kinds, data + b"xy"))
 
     # ---- malformed stream: arbitrary bytes under arbitrary readers
     for _ in range(n_bad):
